@@ -37,6 +37,8 @@ ARG_PANICS = {
     "core::str::<impl str>::split_at": "str::split_at", "std::collections::VecDeque::<T, A>::remove": None,
     "core::char::methods::<impl char>::from_digit": "from_digit", "core::char::methods::<impl char>::to_digit": "to_digit",
     "core::num::<impl u32>::pow": None,
+    "std::collections::BTreeMap::<K, V, A>::range": "BTreeMap::range", "std::collections::BTreeMap::<K, V, A>::range_mut": "BTreeMap::range",
+    "std::collections::BTreeSet::<T, A>::range": "BTreeSet::range",
 }
 
 RANGE_TYS = ("std::ops::Range<", "std::ops::RangeFrom<", "std::ops::RangeTo<", "std::ops::RangeInclusive<", "std::ops::RangeToInclusive<",
@@ -208,6 +210,11 @@ def discharge(fx, site):
             v = const_val(fx, n)
             if v is not None and v > 0:
                 return "constant chunk/step size %s > 0" % v
+            if n[0] == "call" and (n[1] or "").endswith(("::max", "cmp::max")) and len(n[2]) == 2:
+                for a in n[2]:
+                    av = const_val(fx, a)
+                    if av is not None and av > 0:
+                        return "chunk/step size is max(_, %s) > 0" % av
             return None
     return None
 
@@ -232,6 +239,10 @@ def int_fits(frm, to):
 def const_val(fx, t):
     t = sym.strip(t)
     if t[0] == "c":
+        if t[1] is None and isinstance(t[3], str):
+            m = re.match(r"^(-?[0-9.]+(?:[eE][+-]?[0-9]+)?)_?f(?:32|64)$", t[3])
+            if m:
+                return float(m.group(1))
         return t[1]
     if t[0] == "uneval":
         c = fx.const(t[1])
